@@ -84,7 +84,7 @@ with wf_property (inoneof : bool) (p : property) {struct p} : bool :=
   match p with
   | Property n rq op f =>
       field_ident n && negb (rq && op) &&
-      (if inoneof then negb op && negb (is_repeated f) && negb (str_eqb (snake n) (b "type")) else true) &&
+      (if inoneof then negb (is_repeated f) && negb (str_eqb (snake n) (b "type")) else true) &&
       match f with
       | FArray it | FMap it => wf_item it
       | _ => wf_item f
@@ -181,7 +181,9 @@ Variables snake camel screaming : str -> str.
 (* every .j5s file of the bundle is well formed in its own environment, and the exported
    names of every package are distinct *)
 Definition valid_file (bd : bundle) (f : jfile) : bool :=
-  forallb type_ident_or_seg (jf_dir f) &&
+  (* file_lists_ok: service.go checkListMethod (fix cec4e3a) - a method whose request holds a
+     j5.list.v1.QueryRequest has a response with exactly one array, of objects *)
+  forallb type_ident_or_seg (jf_dir f) && file_lists_ok f &&
   match import_map (jf_imports f) [] with
   | Ok im =>
       forallb (wf_element snake camel (mkEnv (j5s_pkg f) im (pkg_exports camel bd))) (jf_elements f)
@@ -197,8 +199,11 @@ Definition bundle_pkgs (bd : bundle) : list str := map bfile_pkg bd.
 Definition symbols_ok (bd : bundle) (pkg : str) : bool :=
   nodup_str (decl_package_symbols snake camel screaming bd pkg).
 
-(* the sub-package names are reserved *)
+(* package names: not empty (a file outside every package directory belongs to the package ""
+   which the compiler cannot load: "no files for package at"), and the sub-package names are
+   reserved *)
 Definition subpackages_free (bd : bundle) (pkg : str) : bool :=
+  match pkg with [] => false | _ => true end &&
   negb (existsb (str_eqb (pkg ++ b ".service")) (bundle_pkgs bd)) &&
   negb (existsb (str_eqb (pkg ++ b ".topic")) (bundle_pkgs bd)).
 
